@@ -175,6 +175,10 @@ def leaf_clsattr():
     CALLS.append("leaf_clsattr")
     return Conf.LIMIT
 
+def leaf_crlf():
+    CALLS.append("leaf_crlf")
+    return "a,b\\r\\n1,2\\rend"
+
 def leaf_reexp():
     CALLS.append("leaf_reexp")
     return reexp.shipped(1)
@@ -220,6 +224,7 @@ def root():
     out["tags"] = dds.keep("/c/tags", leaf_tags)
     out["unit"] = dds.keep("/c/unit", leaf_unit)
     out["li"] = dds.keep("/c/li", leaf_li)
+    out["crlf"] = dds.keep("/c/crlf", leaf_crlf)
     out["method"] = dds.keep("/c/method", leaf_method)
     out["clsattr"] = dds.keep("/c/clsattr", leaf_clsattr)
     out["reexp"] = dds.keep("/c/reexp", leaf_reexp)
@@ -248,7 +253,7 @@ import os, importlib
 shipped = importlib.import_module(os.environ.get("CORPUS_PKG", "corp") + ".helpers").shipped
 '''
 
-ALL = ["/c/plain", "/c/scaled", "/c/items", "/c/flag", "/c/pair", "/c/direct", "/c/kw", "/c/href", "/c/batch", "/c/rate", "/c/tags", "/c/unit", "/c/li", "/c/method", "/c/clsattr", "/c/reexp", "/c/ext", "/c/args", "/c/args2", "/c/args3", "/c/rt", "/c/dup", "/c/ann_root", "/c/annotated", "/c/top_args"]
+ALL = ["/c/plain", "/c/scaled", "/c/items", "/c/flag", "/c/pair", "/c/direct", "/c/kw", "/c/href", "/c/batch", "/c/rate", "/c/tags", "/c/unit", "/c/li", "/c/crlf", "/c/method", "/c/clsattr", "/c/reexp", "/c/ext", "/c/args", "/c/args2", "/c/args3", "/c/rt", "/c/dup", "/c/ann_root", "/c/annotated", "/c/top_args"]
 # edits: (name, file, old, new, kept paths whose cone contains the edit [besides the root], value must change for these)
 EDITS = [
     ("callee body (transitive)", "corp/helpers.py", "return 10", "return 11", ["/c/scaled", "/c/rt"]),
@@ -441,7 +446,7 @@ def edit(d, rel, old, new):
     shutil.rmtree(os.path.join(os.path.dirname(p), "__pycache__"), ignore_errors=True)
 
 
-FUN_OF = {"/c/method": "leaf_method", "/c/clsattr": "leaf_clsattr", "/c/li": "leaf_li", "/c/dup": "dup_leaf", "/c/unit": "leaf_unit", "/c/batch": "leaf_batch", "/c/rate": "leaf_rate", "/c/tags": "leaf_tags", "/c/reexp": "leaf_reexp", "/c/top_args": "with_values", "/c/kw": "leaf_kw", "/c/href": "leaf_href", "/c/direct": "leaf_direct", "/c/plain": "leaf_plain", "/c/scaled": "leaf_scaled", "/c/items": "leaf_items", "/c/flag": "leaf_flag", "/c/pair": "leaf_pair", "/c/ext": "leaf_ext", "/c/args": "with_args:1", "/c/args2": "with_args:2", "/c/args3": "with_args:3", "/c/rt": "with_runtime", "/c/annotated": "annotated", "/c/ann_root": "root"}
+FUN_OF = {"/c/crlf": "leaf_crlf", "/c/method": "leaf_method", "/c/clsattr": "leaf_clsattr", "/c/li": "leaf_li", "/c/dup": "dup_leaf", "/c/unit": "leaf_unit", "/c/batch": "leaf_batch", "/c/rate": "leaf_rate", "/c/tags": "leaf_tags", "/c/reexp": "leaf_reexp", "/c/top_args": "with_values", "/c/kw": "leaf_kw", "/c/href": "leaf_href", "/c/direct": "leaf_direct", "/c/plain": "leaf_plain", "/c/scaled": "leaf_scaled", "/c/items": "leaf_items", "/c/flag": "leaf_flag", "/c/pair": "leaf_pair", "/c/ext": "leaf_ext", "/c/args": "with_args:1", "/c/args2": "with_args:2", "/c/args3": "with_args:3", "/c/rt": "with_runtime", "/c/annotated": "annotated", "/c/ann_root": "root"}
 
 
 def main():
